@@ -333,6 +333,7 @@ def h_step(n: int, p0: int, s0: int, p1: int, s1: int, p2: int, s2: int,
     pre: B.get("n") is None or n == B.get("n")
     pre: B.get("nms") is None or nms == bool(B.get("nms"))
     pre: B.get("limit") is None or limit == B.get("limit")
+    pre: B.get("s0lo") is None or (s0 <= 1) == bool(B.get("s0lo"))
     pre: (not badseg) or ev == 0
     post: _ == True
     """
